@@ -320,6 +320,7 @@ def _unit_worker(a):
     pid, level, tier, fn, unit = a
     sub = Check(pid, level, argv=[tier])
     sub._prog = _PROG_CACHE.setdefault('p', {})
+    t_unit = time.time()
     try:
         fn(sub, unit)
     except (Unsupported, Inconclusive, BoundExceeded) as e:
@@ -328,6 +329,9 @@ def _unit_worker(a):
         sub.inconclusive.append('unit %r: internal error %r\n%s' % (unit, e, traceback.format_exc()[-1500:]))
     for b in sub._bridges.values():
         b.close()
+    dt = time.time() - t_unit
+    if dt > 5:
+        sub.slow.append((round(dt, 1), 'unit ' + str(unit[0] if isinstance(unit, tuple) else unit)[:80]))
     return sub.export()
 
 
